@@ -129,6 +129,30 @@ theorem inv_step {T : Type} (compute : Int → T) (s s' : State T) (h : Inv comp
       by_cases hat : a = t
       · subst hat; simp [setPc_same] at ha
       · simp only [setPc_other _ _ _ _ hat] at ha; exact hd a y' v' ha
+  | crash t y hpc =>
+    have ht : holdsLock (s.pc t) = true := by rw [hpc]; rfl
+    have hnone : ∀ u, u ≠ t → holdsLock (s.pc u) = false := by
+      intro u hu
+      cases hx : holdsLock (s.pc u) with
+      | false => rfl
+      | true => exact absurd (hm u t hx ht) hu
+    refine ⟨hc, ?_, ?_, ?_, ?_, hr⟩
+    · intro u
+      by_cases hu : u = t
+      · subst hu; simp [setPc_same, holdsLock]
+      · simp only [setPc_other _ _ _ _ hu, hnone u hu]; simp
+    · intro a b ha hb
+      by_cases hat : a = t
+      · subst hat; simp [setPc_same, holdsLock] at ha
+      · simp only [setPc_other _ _ _ _ hat, hnone a hat] at ha; simp at ha
+    · intro a y' v' ha
+      by_cases hat : a = t
+      · subst hat; simp [setPc_same] at ha
+      · simp only [setPc_other _ _ _ _ hat] at ha; exact hh a y' v' ha
+    · intro a y' v' ha
+      by_cases hat : a = t
+      · subst hat; simp [setPc_same] at ha
+      · simp only [setPc_other _ _ _ _ hat] at ha; exact hd a y' v' ha
   | release t y v hpc =>
     have ht : holdsLock (s.pc t) = true := by rw [hpc]; rfl
     have hnone : ∀ u, u ≠ t → holdsLock (s.pc u) = false := by
